@@ -6,10 +6,10 @@ class C42(Prop):
     check_mod = "C42"
     drivers = [dict(pkg="internal/staticsources", test="TestVerifC42Src", timeout=600),
                dict(pkg="internal/forward", test="TestVerifC42Dst", timeout=600)]
-    n_quick = 1000          # per driver
+    n_quick = 600           # per driver
     n_thorough = 60000
-    shard = 500
-    ready = False
+    shard = 300
+    ready = True
     manifest = dict(
         text="Coq theorems over a Gallina transliteration of resolveSource/resolveDest (descending-index chains of "
              "strings.ReplaceAll): on every template inside an explicit boolean guard, for every group count and all "
